@@ -84,15 +84,15 @@ clone_same!(k_clone, Serpent, any_serpent());
 names!(n_names, Serpent, any_serpent(), "Serpent");
 
 // ---------------------------------------------------------------- C16
-// @ob name=z_drop props=C16 cfg=zeroize fn=serpent::Serpent::drop timeout=300
-zero_on_drop!(z_drop, Serpent, any_serpent());
+// @ob name=z_drop_own props=C16 cfg=zeroize fn=serpent::Serpent::drop timeout=300
+zero_on_drop!(z_drop_own, Serpent, any_serpent());
 // @ob name=z_drop_clone props=C16 cfg=zeroize fn=serpent::Serpent::drop,serpent::Serpent::clone timeout=300
 zero_on_drop!(z_drop_clone, Serpent, any_serpent().clone());
 
 // ---------------------------------------------------------------- C04 / C15
-// @ob name=m_blocks_0 props=C04,C15 kind=bounded bound="n = 0 blocks" fn=serpent::Serpent::encrypt_with_backend,serpent::Serpent::decrypt_with_backend uses=c_encrypt_block,c_decrypt_block timeout=300
+// @ob name=m_blocks_0 props=C04,C15 kind=bounded bound="n = 0 blocks" fn=serpent::Serpent::encrypt_with_backend,serpent::Serpent::decrypt_with_backend uses=c_encrypt_block_un,c_decrypt_block_un timeout=300
 multi_block!(m_blocks_0, Serpent, any_serpent(), 0);
-// @ob name=m_blocks_1 props=C04,C15 kind=bounded bound="n = 1 block" fn=serpent::Serpent::encrypt_with_backend,serpent::Serpent::decrypt_with_backend uses=c_encrypt_block,c_decrypt_block timeout=300
+// @ob name=m_blocks_1 props=C04,C15 kind=bounded bound="n = 1 block" fn=serpent::Serpent::encrypt_with_backend,serpent::Serpent::decrypt_with_backend uses=c_encrypt_block_un,c_decrypt_block_un timeout=300
 multi_block!(m_blocks_1, Serpent, any_serpent(), 1);
-// @ob name=m_blocks_3 props=C04,C15 kind=bounded bound="n = 3 blocks" fn=serpent::Serpent::encrypt_with_backend,serpent::Serpent::decrypt_with_backend uses=c_encrypt_block,c_decrypt_block timeout=600
+// @ob name=m_blocks_3 props=C04,C15 kind=bounded bound="n = 3 blocks" fn=serpent::Serpent::encrypt_with_backend,serpent::Serpent::decrypt_with_backend uses=c_encrypt_block_un,c_decrypt_block_un timeout=600
 multi_block!(m_blocks_3, Serpent, any_serpent(), 3);
